@@ -24,7 +24,7 @@ func init() {
 		Title: "The generator is total, deterministic and never silently emits broken code",
 		Run:   runC16,
 		Meta: core.PropertyMeta{
-			Explanation: "Three structural parts. (1) Determinism: every range over a Go map in a function reachable from the plugin path matches an order-insensitive idiom with a checked side condition (insert-only body; append followed by a sort before any other use; existential search returning one constant; import registration with pairwise distinct base names; first-match selection over pairwise exclusive predicates) - Y1; no ambient inputs (time, random, environment) - Y2. (2) The accept/reject/emit decision is a total, conflict-free function of the option lattice and agrees with doc/method-options.md: validateOptions' conditions and every chkFn are lifted from the AST into formulas over 8 option atoms + 2 streaming bits and all 1024 valuations are enumerated - exactly one client template per accepted method, unique call type, every combination the documentation forbids is rejected, every 'Yes' cell is accepted, N/A options have no effect on the emitted non-comment text (template def-use) - Y3/Y4. (3) What the templates reference exists: call-data fields written by a template are fields of that runtime struct, identifiers named through `use` exist and are exported, template functions are keys of the funcMap - Y5; the reserved-name set covers every exported identifier the static code declares plus QuorumSpec, and the guard compares every message name with every reserved name - Y6; every rejecting path ends in log.Fatal* - Y7.",
+			Explanation: "Three structural parts. (1) Determinism: every range over a Go map in a function reachable from the plugin path matches an order-insensitive idiom with a checked side condition (insert-only body; append followed by a sort before any other use; existential search returning one constant; import registration with pairwise distinct base names; first-match selection over pairwise exclusive predicates) - Y1; no ambient inputs (time, random, environment) - Y2. (2) The accept/reject/emit decision is a total, conflict-free function of the option lattice and agrees with doc/method-options.md: validateOptions' conditions and every chkFn are lifted from the AST into formulas over 8 option atoms + 2 streaming bits and all 1024 valuations are enumerated - exactly one client template per accepted method, unique call type, every combination the documentation forbids is rejected, every 'Yes' cell is accepted, N/A options have no effect on the emitted non-comment text (template def-use) - Y3/Y4. (3) What the templates reference exists: call-data fields written by a template are fields of that runtime struct, identifiers named through `use` exist and are exported, template functions are keys of the funcMap - Y5; the reserved-name set covers every exported identifier the static code declares plus QuorumSpec, and the guard compares every message name with every reserved name - Y6; every rejecting path ends in log.Fatal* - Y7. Y11: message types reach the emitted text only through QualifiedGoIdent. Y1 also demands that no expression evaluated in map order is handed the generated file.",
 			NotDecided:  "'Output compiles for every service definition' and 'terminates without panic for every input' quantify over all programs the generator can emit and are not decided; protogen's own behaviour; the --bundle tool's map ranges (its output is compared by C17-U2).",
 			Trusted:     append([]string{"text/template ranges over maps in sorted key order", "protogen disambiguates clashing import names in first-come order"}, commonTrust...),
 		},
